@@ -324,6 +324,34 @@ pub fn run(opts: &Opts) -> Report {
     );
     let maxlen = if opts.thorough() { 7 } else { 5 };
     let mut rng = Rng::new(opts.seed);
+    // the textual form of a cursor (what CSV cells and the OFFSET clause of a query hold) reads back as the same cursor:
+    // alignment is in the text (a leading '-'), not in the number, so that the end-aligned 0 ("-0": the very end) survives
+    for k in 0..40isize {
+        for c in [Cursor::BeginAligned(k as usize), Cursor::EndAligned(-k)] {
+            let txt = format!("{}", c);
+            let back = guarded(std::panic::AssertUnwindSafe(|| Cursor::try_from(txt.as_str()).ok()));
+            rep.count("cursor-text-roundtrip");
+            rep.case(None);
+            if back != Ok(Some(c)) { rep.fail(if back.is_err() { "panic" } else { "oracle" }, &format!("cursor-text/{}", if matches!(c, Cursor::EndAligned(0)) { "end-aligned-zero" } else if matches!(c, Cursor::EndAligned(_)) { "end-aligned" } else { "begin-aligned" }), vec![format!("cursor {:?} printed as {:?}", c, txt)], &format!("{:?}", c), &format!("{:?}", back)); }
+        }
+    }
+    // … and an offset with such cursors written into a query resolves to the same text as the offset itself
+    {
+        let mut ex = crate::fam::store::Exec::new();
+        ex.exec("st addres r0 9");
+        let store = &ex.store;
+        if let Some(r) = store.resource("r0") {
+            for (b, e) in [("0", "-0"), ("3", "-0"), ("-4", "-0"), ("-4", "-1"), ("2", "5")] {
+                let off = Offset::new(Cursor::try_from(b).unwrap_or(Cursor::BeginAligned(0)), Cursor::try_from(e).unwrap_or(Cursor::BeginAligned(0)));
+                let direct = r.textselection(&Offset::new(if b.starts_with('-') { Cursor::EndAligned(b.parse().unwrap_or(0)) } else { Cursor::BeginAligned(b.parse().unwrap_or(0)) }, if e.starts_with('-') { Cursor::EndAligned(e.parse().unwrap_or(0)) } else { Cursor::BeginAligned(e.parse().unwrap_or(0)) })).map(|t| (t.begin(), t.end())).ok();
+                let parsed = r.textselection(&off).map(|t| (t.begin(), t.end())).ok();
+                let q = format!("SELECT TEXT ?t WHERE RESOURCE \"r0\" OFFSET {} {};", b, e);
+                let via_query = guarded(std::panic::AssertUnwindSafe(|| Query::try_from(q.as_str()).ok().and_then(|qq| store.query(qq).ok()).and_then(|mut it| it.next()).and_then(|row| row.iter().next().and_then(|x| if let QueryResultItem::TextSelection(t) = x { Some((t.begin(), t.end())) } else { None })))).unwrap_or(None);
+                rep.count("cursor-text-in-offset");
+                if parsed != direct || via_query != direct { rep.fail("oracle", "cursor-text/offset-differs", vec![format!("OFFSET {} {} on a text of 9 characters", b, e)], &format!("{:?}", direct), &format!("parsed cursors: {:?}, in a query: {:?}", parsed, via_query)); }
+            }
+        }
+    }
     for n in 0..=maxlen {
         // one text per length, characters cycling through 1,2,3,4-byte code points and a space
         let text: String = (0..n).map(|i| ALPHABET[(i + n) % ALPHABET.len()]).collect();
